@@ -224,6 +224,11 @@ def approx_gradient(func, x, epsilon= 0.000001):
     if isinstance(x, Number):
         return (func(x+epsilon) - func(x))/epsilon
 
+    # The step epsilon cannot be resolved in single precision: evaluate
+    # single precision points in double precision
+    if isinstance(x, np.ndarray) and x.dtype.kind == 'f' and x.dtype.itemsize < 8:
+        x = x.astype(np.float64)
+
     # Initialize variables
     FD_gradient = x*0.0
     eps_vec = x*0.0
